@@ -16,7 +16,7 @@ LEVEL = {
  "C06": ("exploration", "Happens-before race detection by Miri (weak-memory emulation, vector clocks incl. deallocation, many seeds, with the hook and with the hook compiled out) and by ThreadSanitizer (-Zbuild-std) on the same programs; both follow the orderings written in the source, so a missing Release/Acquire edge is reported on any racy-shaped execution even on x86. Sampled schedules only.", "§4 C06"),
  "C07": ("exploration", "Pointer-arithmetic oracle per zero-copy op plus per-call allocation events from the ledger (no align-1 allocation allowed) over the generated histories.", "§4 C07"),
  "C08": ("exploration", "Three-valued uniqueness oracle (pool + ledger) evaluated on every live Bytes after every op; try_into_mut vs is_unique vs address; reclaim clause probed whenever an empty sole BytesMut exists.", "§4 C08"),
- "C13": ("fault_enumeration", "32 out-of-contract call variants injected at every point of generated histories (exhaustively as first step from 13 start states with every 1-op continuation; randomly in walks), each under catch_unwind with a before/after snapshot of every handle, in debug and release, on the ledger and under ASan; a crash inside such a call is a violation.", "§4 C13"),
+ "C13": ("fault_enumeration", "34 out-of-contract call variants injected at every point of generated histories (exhaustively as first step from 16 start states with every 1-op continuation; randomly in walks), each under catch_unwind with a before/after snapshot of every handle, in debug and release, on the ledger and under ASan; a crash inside such a call is a violation.", "§4 C13"),
  "C09": ("exploration", "Lock-step law monitor: reader trees made of the crate's real adapters are compared with a flat Vec<u8> model after every cursor op; every fragmentation of sequences of length<=6 x 7 wrappers x every op pair, plus random trees to depth 4; Miri on a slice of it.", "§4 C09"),
  "C10": ("exploration", "Exhaustive getter table (method x value pattern x implementor x chunk-boundary position x call path x shortfall) against a reference decoder, debug+release natively, and slices of it under Miri for host, big-endian s390x and 32-bit i686.", "§4 C10"),
  "C11": ("exploration", "Writer-tree monitor: model of appended bytes, guard bytes around fixed targets, remaining_mut/chunk_mut laws after every step, dismantling at the end, read-back with the matching getter; ledger (red zones), ASan and Miri builds.", "§4 C11"),
